@@ -115,14 +115,15 @@ theorem forward_never_crashes (cfg : Cfg) (ok : CfgOK cfg) (n : Nat) (s : State)
 /-! ### The Spec's C03 clauses on every run of the model -/
 
 /-- **The Spec's C03 clauses hold on every run of the model.**  For every configuration meeting the side conditions
-(`CfgOK`, automatic fuel, `OrdPerm`: the iteration order of a Python `set` visits every element once — insertion order
+(`CfgOK`, automatic fuel, CLIENT_CLOSED is not the ALL_MESSAGE_TYPES sentinel;
+`OrdPerm`: the iteration order of a Python `set` visits every element once — insertion order
 and its reverse, which the driver uses, are instances) and every history whose frames are read from connections (never
 from the manager's own table entry, uid 0 — true of every generated history), the verdict `Spec.runSpec` computes from
 the history and the model's own events has no C03 entry. -/
 theorem spec_liveness_clause_passes_on_model (cfg : Cfg) (ok : CfgOK cfg) (hfuel : cfg.fuel = 0) (hperm : OrdPerm cfg)
-    (rs : List Round) (hwf : RoundsWF rs) :
+    (hmt : cfg.mtClosed ≠ cfg.allTypes) (rs : List Round) (hwf : RoundsWF rs) :
     (Spec.runSpec cfg rs (Pyrtma.Drv.Manager.modelRun cfg rs).1 none).errs.filter (·.1 == "C03") = [] :=
-  spec_passes_on_model ok hfuel hperm rs hwf "C03" (by simp [proven])
+  spec_passes_on_model ok hfuel hperm hmt rs hwf "C03" (by simp [proven]) (fun h => absurd h (by decide))
 
 /-- a history with a frame that is never read: connection 1 dies on the header of its first frame, its second frame of
     the same round stays unread — and the Spec agrees that it was not pending any more -/
